@@ -511,6 +511,11 @@ func init() {
 		parallel(n, workers, func(k int) {
 			i := k * stride
 			name, content := c02Input(bases, i, seed)
+			if k%11 == 5 {
+				// binary-only mutation class: a self-referential anchor
+				content = SelfAnchor(rand.New(rand.NewSource(seed*31+int64(k))), content)
+				name += "|selfAnchor"
+			}
 			dir, _ := os.MkdirTemp(shmDir(), "c02b-")
 			defer os.RemoveAll(dir)
 			os.WriteFile(filepath.Join(dir, "rules.yml"), content, 0o644)
